@@ -231,6 +231,19 @@ video_filter_configure(struct video_filter_s* self,
 enum DeviceStatusCode
 video_filter_start(struct video_filter_s* self)
 {
+    // Join the input queue as a reader before the source thread exists: a
+    // queue without readers lets the writer wrap freely, so frames written
+    // before this thread's first poll could be overwritten. Whatever is still
+    // queued belongs to an earlier acquisition.
+    {
+        struct slice stale;
+        do {
+            stale = channel_read_map(&self->in, &self->reader);
+            channel_read_unmap(
+              &self->in, &self->reader, slice_size_bytes(&stale));
+        } while (stale.end > stale.beg);
+    }
+    channel_rewind(&self->in);
     self->is_stopping = 0;
     self->is_running = 1;
     CHECK(
